@@ -149,9 +149,7 @@ func runFqPath(r *core.Run, levels []level) bool {
 			r.NotExhaustive("deadline: fq AST->JSON->AST path level " + l.name + " not finished")
 			return false
 		}
-		if r.ShardIdx == 0 {
-			r.Section("fqpath:" + l.name)
-		}
+		sectionDone(r, "fqpath:"+l.name)
 		r.Logf("fqpath %s: programs=%d", l.name, n)
 	}
 	return true
